@@ -341,6 +341,28 @@ pub fn gen_red(seed: u64, tier: &str) -> Vec<String> {
                             sim.reg(*k, &mut out);
                         }
                     }
+                    // consuming adaptors: from a fresh, a partly consumed and an exhausted iterator
+                    for (pre, taken) in [("", 0usize), ("next ", 1), ("nth7 ", usize::MAX)] {
+                        out.lines.push(format!("chiter e{} {} {}last", sim.eid(x), kind, pre));
+                        let mut taken = taken;
+                        if taken == 1 {
+                            if let Some(k) = kids.get(0) {
+                                sim.reg(*k, &mut out);
+                            }
+                        } else if taken == usize::MAX {
+                            if let Some(k) = kids.get(7) {
+                                sim.reg(*k, &mut out);
+                                taken = 8;
+                            }
+                        }
+                        if taken < kids.len() {
+                            sim.reg(*kids.last().unwrap(), &mut out);
+                        }
+                    }
+                    out.lines.push(format!("chiter e{} {} next fold", sim.eid(x), kind));
+                    for k in kids.iter() {
+                        sim.reg(*k, &mut out);
+                    }
                 }
             }
         }
@@ -406,7 +428,21 @@ pub fn gen_red(seed: u64, tier: &str) -> Vec<String> {
                             }
                             ops.push(op);
                         }
-                        ops.push("count");
+                        match rng.below(3) {
+                            0 => ops.push("count"),
+                            1 => {
+                                ops.push("last");
+                                if taken < kids.len() {
+                                    shown.push(*kids.last().unwrap());
+                                }
+                            }
+                            _ => {
+                                ops.push("fold");
+                                for k in kids.iter().skip(taken) {
+                                    shown.push(*k);
+                                }
+                            }
+                        }
                         out.lines.push(format!("chiter e{} {} {}", sim.eid(x), kind, ops.join(" ")));
                         for k in shown {
                             sim.reg(k, &mut out);
@@ -428,6 +464,46 @@ pub fn gen_red(seed: u64, tier: &str) -> Vec<String> {
         for x in sim.known() {
             out.lines.push(format!("nav e{} range", sim.eid(x)));
         }
+    }
+    // two dialects over one cache: the same raw kind has a static text of another length in the second one (the
+    // session's table is switched for the second tree and switched back at the end of the case; the first tree is
+    // not read in between).  Positions in the second tree must follow its own token lengths.
+    let n = if tier == "thorough" { 120 } else { 12 };
+    for i in 0..n {
+        let (sk, old) = STATICS[i % STATICS.len()];
+        let alt = ["=>", "", "and", "é"][(i / STATICS.len()) % 4];
+        if alt.len() == old.len() {
+            continue;
+        }
+        let leaf = |rng: &mut Rng| RefTree::Tok(INTERNED_KINDS[rng.below(3)], rng.pick(&TEXTS[..]).to_string());
+        let (a, b) = (leaf(&mut rng), leaf(&mut rng));
+        let shape = |txt: &str| {
+            RefTree::Node(0, vec![
+                a.clone(),
+                RefTree::Tok(sk, txt.to_string()),
+                RefTree::Node(1, vec![RefTree::Tok(sk, txt.to_string()), b.clone()]),
+                RefTree::Tok(sk, txt.to_string()),
+                a.clone(),
+            ])
+        };
+        let (t1, t2) = (shape(old), shape(alt));
+        start_case(&mut out, &mut case, &t1, &mut rng, bes[i % bes.len()]);
+        out.lines.push(format!("syn {} {}", sk, hex(alt)));
+        out.lines.push("builder c0".into());
+        emit_tree(&t2, &mut out.lines, &mut rng);
+        out.lines.push("finish".into());
+        out.lines.push(format!("api {}", if i % 2 == 0 { "plain" } else { "resolved" }));
+        let mut sim = Sim::new(&t2, "g1", &mut out);
+        let r = ROUTES[i % ROUTES.len()];
+        route(&mut sim, 0, r, &mut out);
+        sim.nav(0, &["descendants_with_tokens"], &mut out);
+        for x in sim.known() {
+            out.lines.push(format!("nav e{} range", sim.eid(x)));
+            if sim.arena.is_tok(x) {
+                sim.nav(x, &["next_token"], &mut out);
+            }
+        }
+        out.lines.push(format!("syn {} {}", sk, hex(old)));
     }
     out.lines
 }
@@ -807,6 +883,59 @@ pub fn gen_tokens(seed: u64, tier: &str) -> Vec<String> {
             }
         }
     }
+    // tokens below nodes whose cache heads collide (narrow hash mask: same kind and text length is enough): three and more
+    // different one-token nodes of one head, also one level down inside otherwise identical parents, in two trees over
+    // one cache -- every token must still resolve to the text it was built from
+    let m = if tier == "thorough" { 600 } else { 45 };
+    for i in 0..m {
+        let mask = [0u32, 1, 3][i % 3];
+        let words: &[&str] = [&["a", "b", "c", "d", "e"][..], &["ab", "cd", "é", "ef", "+"][..], &["", ""][..]][(i / 3) % 3];
+        let mk = |rng: &mut Rng| {
+            let cnt = 3 + rng.below(4);
+            let mut cs = vec![];
+            for _ in 0..cnt {
+                let w = *rng.pick(words);
+                let k = if w == "+" && rng.chance(1, 2) { 12 } else if w.is_empty() && rng.chance(1, 2) { 13 } else { [10u32, 10, 11][rng.below(3)] };
+                let inner = RefTree::Node(1, vec![RefTree::Tok(k, w.to_string())]);
+                cs.push(if rng.chance(1, 3) { RefTree::Node(2, vec![inner]) } else { inner });
+            }
+            RefTree::Node(0, cs)
+        };
+        let t1 = mk(&mut rng);
+        let t2 = if i % 5 == 4 {
+            // the whole second tree differs from the first in one token text only
+            RefTree::Node(0, vec![RefTree::Node(2, vec![RefTree::Node(1, vec![RefTree::Tok(10, words[1].to_string())])])])
+        } else {
+            mk(&mut rng)
+        };
+        let t1 = if i % 5 == 4 { RefTree::Node(0, vec![RefTree::Node(2, vec![RefTree::Node(1, vec![RefTree::Tok(10, words[0].to_string())])])]) } else { t1 };
+        out.lines.push(format!("cfg mask {}", mask));
+        start_case(&mut out, &mut case, &t1, &mut rng, bes[i % bes.len()]);
+        out.lines.push("builder c0".into());
+        emit_tree(&t2, &mut out.lines, &mut rng);
+        out.lines.push("finish".into());
+        out.lines.push(format!("api {}", if i % 2 == 0 { "plain" } else { "resolved" }));
+        let mut toks: Vec<usize> = vec![];
+        for (t, g) in [(&t1, "g0"), (&t2, "g1")] {
+            let mut s = Sim::new(t, g, &mut out);
+            s.nav(0, &["descendants_with_tokens"], &mut out);
+            for x in s.known() {
+                if s.arena.is_tok(x) {
+                    toks.push(s.eid(x));
+                }
+            }
+        }
+        for a in &toks {
+            out.lines.push(format!("resolve e{}", a));
+            out.lines.push(format!("text_key e{}", a));
+        }
+        for a in &toks {
+            for b in &toks {
+                out.lines.push(format!("text_eq e{} e{}", a, b));
+            }
+        }
+    }
+    out.lines.push(format!("cfg mask {}", u32::MAX));
     out.lines
 }
 
